@@ -370,7 +370,7 @@ func genHevc(c *Ctx, add func(caseT)) {
 			}
 		}
 	}
-	n := c.Budget(3000, 40000)
+	n := c.Budget(3000, 20000)
 	for i := 0; i < n; i++ {
 		var b []byte
 		switch c.Rng.Intn(3) {
